@@ -284,6 +284,10 @@ func (r *rw) wantYield(x *ast.FuncDecl) bool {
 	switch x.Name.Name {
 	case "Less", "Swap", "Len", "String", "GoString":
 		return false
+	case "updateNodes", "collectItems", "updateNodesUpper", "getLeaf", "getLeafAndInvalidNodes", "getNode", "setToLeaf", "remvoeFromLeaf":
+		// recursive / per-item tree walks that run entirely under the tree lock: a yield per
+		// visited node only burns scheduler steps
+		return false
 	}
 	return true
 }
